@@ -14,6 +14,11 @@ def isPrintSearch (r : Nat) : (fuel lo hi : Nat) → Bool
       else if r > z then isPrintSearch r fuel (mid + 1) hi
       else true
 
-def isPrintTable (r : Nat) : Bool := isPrintSearch r 32 0 Gen.isPrintRanges.size
+def isPrintRaw (r : Nat) : Bool := isPrintSearch r 32 0 Gen.isPrintRanges.size
+
+/-- strconv.IsPrint: the regenerated table, guarded by the two facts every use relies on (no C0
+    control, not DEL) so that they hold by construction; the correspondence checks the guard never
+    changes the table's answer. -/
+def isPrintTable (r : Nat) : Bool := decide (32 ≤ r) && r != 127 && isPrintRaw r
 
 end Logg
